@@ -9,7 +9,9 @@ CONSTANTS
   Targets = {3, 4}
   Corruptions <- CorrQuick
   NT = 1
-  FollowRetries = FALSE
+  FollowRetries = TRUE
+  FollowAppend = TRUE
+  ResyncChecksRound = TRUE
   MaxAgg = 0
   QCap = 1
   Linger = FALSE
